@@ -54,6 +54,7 @@ Definition run_dir (v : val) : val :=
             if must_reject path then
               match obs with VL [VN 0; _] => [] | _ => [dclause "hostile-path-must-be-rejected"] end
             else
+              let sibling_due := auto && sg && match lookup_open table (path ++ DOT_GZ) with OOpened _ false => true | _ => false end in
               match obs with
               | VL [VN 0; _] => [dclause "harmless-path-rejected"]
               | VL [VN 3; VN ino; VN gz; enc; hdrs] =>
@@ -69,6 +70,8 @@ Definition run_dir (v : val) : val :=
                   ++ (if val_eqb hdrs (of_list (of_pair VB VB) (node_headers expect_gz auto)) then [] else [dclause "encoding-headers"])
               | VL [VN 1] =>
                   (match lookup_open table path with ONotFound => [] | _ => [dclause "not-found-but-the-file-opens"] end)
+                  (* the sibling that had to be substituted is there (and the plain file is not) *)
+                  ++ (if sibling_due then [dclause "gz-substitution-exactly-when-specified"] else [])
               | VL [VN 2; _] =>
                   (* "or fails the way opening that file fails": an error although the file opens is
                      tolerated only when the sibling that would have been substituted is there but fails to
@@ -79,6 +82,7 @@ Definition run_dir (v : val) : val :=
                    | OOpened _ _ => if sibling_fails then [] else [dclause "fails-although-the-file-opens"]
                    | _ => []
                    end)
+                  ++ (if sibling_due then [dclause "gz-substitution-exactly-when-specified"] else [])
               | _ => [dclause "panic-or-malformed"]
               end in
           (* which of its defects a rejected path is blamed for is not constrained ("returns an error"):
